@@ -383,7 +383,7 @@ def scenario_c18(scn):
             # which workers are still alive shortly after the reply (API and OS), without touching them
             t0 = time.time()
             pend = dict(workers)
-            while pend and time.time() - t0 < 2.0:
+            while pend and time.time() - t0 < 3.0:
                 for w, wo in list(pend.items()):
                     a = L.bounded(wo.is_alive, HANG)
                     if a == ('ok', False) and not L.pid_alive(wo.pid):
@@ -414,6 +414,21 @@ def scenario_c18(scn):
         wo = workers.get(q['w'])
         if wo is None:
             return 'noworker', []                     # the start this request refers to gave no worker
+        if op == 'busy':
+            marker = os.path.join(scn['logdir'], 'busy-%s-%d' % (srv.tag, n))
+            def busy():
+                wo.enqueue(marker)
+                t0 = time.time()
+                while not os.path.exists(marker):
+                    if time.time() - t0 > HANG:
+                        return 'notrunning'
+                    time.sleep(0.01)
+                return 'queued'
+            try:
+                r = L.bounded(busy, 2 * HANG)
+            except WorkerClosedError:
+                return 'dead', []
+            return (r[1] if r[0] == 'ok' else ('dead' if r[0] == 'raised' and isinstance(r[1], WorkerClosedError) else L.tag(r))), []
         if op == 'call':
             def call():
                 try:
@@ -567,7 +582,7 @@ def scenario_c12(scn):
                     RemoteContext(cid, host=srv.addr, target=tg.ident)
                     try:
                         RemoteContext(cid, host=srv.addr, target=tg.ident)
-                        raise MachineryError('C12 set-up: duplicate registration was not refused')
+                        notes['setup'].append('duplicate registration of context %d was NOT refused' % cid)   # C18's subject
                     except ValueError:
                         pass
                 elif k['state'] != 'starting':
